@@ -111,10 +111,17 @@ def main_cross_gaps(case):
     return case['rowgap'], case['colgap']
 
 
+def computed_factor(value, initial):
+    """css-flexbox 7.2 / 7.3: a negative flex-grow / flex-shrink is invalid, the declaration is ignored and the
+    property keeps its initial value (validator `flex_grow_shrink`, repair c151619)."""
+    return initial if value < 0 else value
+
+
 def wire(case):
     mg, cg = main_cross_gaps(case)
     cont = [case['dir'], case['wrap'], case['width'], _len(case['height']), mg, cg, case['justify'],
             case['align_items'], case['align_content']]
+    # flex-grow / flex-shrink go on the wire as written: the model side applies the validator (`Flex.computedFactor`)
     items = [[it['id'], it['order'], it['grow'], it['shrink'], it['basis'], _len(it['width']), _len(it['height']),
               _len(it['minw']), _len(it['maxw']), _len(it['minh']), _len(it['maxh']),
               _len(it['ml']), _len(it['mr']), _len(it['mt']), _len(it['mb']),
